@@ -52,6 +52,25 @@ Theorem C12_grown_alternatives : forall b t, only_alts b = true -> grow b t = bu
 Proof. exact grown_alternatives. Qed.
 Print Assumptions C12_grown_alternatives.
 
+(* ... and ANY statement written after re-entering, one per session: a refinement written then refines the WHOLE tree built so far
+   (wherever some conclusion was selected, the refinement's conclusion - the most specific applicable one inside its own block -
+   replaces it where the refinement applies), an alternative applies where nothing was selected.  [sel_grown v later x]: that
+   reading, from the conclusion v the first session's program selects.  Proved for every base program, every sequence of later
+   sessions (each statement with a block of any shape) and every item; tags pairwise different. *)
+Theorem C12_grown_sessions : forall base later x, NoDup (tags_n base ++ tags_b later) ->
+  fire (grow later (build base)) x = sel_grown (rdr base x) later x.
+Proof. exact grown_program. Qed.
+Print Assumptions C12_grown_sessions.
+
+Example C12_grown_sessions_nonvacuous :
+  let base := RN [(0,1)] 1 (BCons KAlt (RN [(1,1)] 2 BNil) BNil) in
+  let later := BCons KRef (RN [(2,1)] 3 (BCons KAlt (RN [(3,1)] 4 BNil) BNil)) (BCons KRef (RN [(3,0)] 5 BNil) BNil) in
+  NoDup (tags_n base ++ tags_b later) /\
+  show_tree (grow later (build base)) = "E(E(A(L1,L2),A(L3,L4)),L5)"%string /\
+  (* base false, alternative true, first later refinement applies: the conclusion of the whole tree so far (2) is replaced *)
+  map (fun x => fire (grow later (build base)) x) [[0;1;1;1]; [0;1;0;1]; [1;0;0;0]; [0;0;1;1]] = [Some 3; Some 4; Some 5; None].
+Proof. cbv zeta. split; [repeat constructor; cbn; intuition congruence|]. split; vm_compute; reflexivity. Qed.
+
 Example C12_grown_nonvacuous :
   let base := RN [(0,1)] 1 (BCons KRef (RN [(1,1)] 2 BNil) BNil) in
   let later := BCons KAlt (RN [(2,1)] 3 (BCons KRef (RN [(3,1)] 4 BNil) BNil)) (BCons KAlt (RN [(3,0)] 5 BNil) BNil) in
